@@ -1,6 +1,7 @@
 /- Driver component `fault`: backend-call sequence of a command and the outcome of a fault at call k. -/
 import AioftpModel.Driver.Codec
 import AioftpModel.Model.Faults
+import AioftpModel.Model.ExcFunnel
 import AioftpModel.Model.Session
 
 namespace DriverFaults
@@ -32,6 +33,15 @@ def handleFaults : List String → Option String
     let s := run v sh k
     let fc := match s.faulted with | some c => callName c | none => "n"
     pure s!"replies={encNats s.replies} dataclosed={encBool s.dataClosed} owns={encBool s.ownsData} faulted={fc}"
+  | ["funnel", name] =>
+    -- what leaves a backend method under `universal_exception` when it raises `name`, and the dispatcher's answer
+    match Model.ExcFunnel.Exc.all.find? (fun e => e.sourceName == some name) with
+    | none => none
+    | some e =>
+      let r := Model.ExcFunnel.universalException Generated.PathIO.universalExceptionPassThrough Generated.PathIO.universalExceptionWrapsTheRest e
+      let rs := match r with | .pathIOError => "PathIOError" | .same _ => "same"
+      let f := match Model.ExcFunnel.fateNow e with | .answered451 => "451" | .sessionEnds => "session-ends" | .propagates => "propagates"
+      some s!"{rs} {f}"
   | _ => none
 
 end DriverFaults
